@@ -1,9 +1,9 @@
 package main
 
 import (
-	"go/ast"
 	"bytes"
 	"fmt"
+	"go/ast"
 	"go/constant"
 	"go/types"
 	"sort"
@@ -130,7 +130,7 @@ func groundOracleABI(e *Engine, prop string) []*Obligation {
 		return []*Obligation{groundObl(prop, "oracle-abi-layout", "x/oracle/types loaded", false, "package not loaded")}
 	}
 	want := map[string][][2]string{
-		"fullResult": {{"ClientID", "string"}, {"OracleScriptID", "uint64"}, {"Calldata", "bytes"}, {"AskCount", "uint64"}, {"MinCount", "uint64"}, {"RequestID", "uint64"}, {"AnsCount", "uint64"}, {"RequestTime", "int64"}, {"ResolveTime", "int64"}, {"ResolveStatus", "int32"}, {"Result", "bytes"}},
+		"fullResult":    {{"ClientID", "string"}, {"OracleScriptID", "uint64"}, {"Calldata", "bytes"}, {"AskCount", "uint64"}, {"MinCount", "uint64"}, {"RequestID", "uint64"}, {"AnsCount", "uint64"}, {"RequestTime", "int64"}, {"ResolveTime", "int64"}, {"ResolveStatus", "int32"}, {"Result", "bytes"}},
 		"partialResult": {{"Calldata", "bytes"}, {"OracleScriptID", "uint64"}, {"RequestID", "uint64"}, {"MinCount", "uint64"}, {"ResolveTime", "int64"}, {"ResolveStatus", "int32"}, {"Result", "bytes"}},
 	}
 	got := map[string][][2]string{}
